@@ -130,6 +130,82 @@ def job(a):
     return out
 
 
+def job_struct_opaque(a):
+    """Structural contract of Grover.__init__ for EVERY oracle circuit: the predicate is a QlassF whose circuit holds OPAQUE gate tokens (any
+    inspection raises), every length 0..L with every wire assignment, result qubit r anywhere above the n search qubits, every
+    (n_matching, n_iterations) of the list.
+      ensures  circuit = H(0..n-1) H(p) ( <oracle gates: equal tokens in order, same wires> CZ(r -> p) <diffuser on 0..n-1, p> )^k,   p = the added qubit,
+               k = n_iterations if given, else the least integer >= pi/4 sqrt(2^n / n_matching) (checked with rational bounds on pi);
+               num_qubits = oracle's + 1; output_qubits = [0..n-1]; the predicate's circuit is unchanged and shares no gate list with the result."""
+    n, extra, L = a
+    from qlasskit.algorithms import Grover
+    from qlasskit.ast2logic.typing import Arg
+    from qlasskit.qlassfun import QlassF
+    from qlasskit.types import Qint
+    from . import c14
+    from .. import pyvc
+    m = n + extra
+    name = f"C15.Grover.constructor.structure[opaque oracle, {n} search qubits, {m} qubits, <= {L} gates]"
+    base = dict(strength="proved-class", backend="pyvc-opaque", function="qlasskit.algorithms.Grover.__init__")
+    aty = bool if n == 1 else Qint[n]
+    cases = 0
+    lo, hi = Fraction(314159265358, 10 ** 11), Fraction(314159265359, 10 ** 11)
+    for r in range(n, m):
+        for length in range(0, L + 1):
+            for ws in c14.wire_lists(m, length, 2):
+                for n_match, n_it in ((1, None), (2, None), (1, 0), (1, 1), (1, 3), (3, None)):
+                    if n_match >= (1 << n):
+                        continue
+                    oc = c14.mk_circuit(m, ws)
+                    oc.qubit_map.clear()
+                    for i in range(n):
+                        oc.qubit_map[f"a.{i}" if n > 1 else "a"] = i
+                    oc.qubit_map["_ret"] = r
+                    qf = QlassF("pred", None, [Arg("a", aty, [f"a.{i}" for i in range(n)] if n > 1 else ["a"])], Arg("_ret", bool, ["_ret"]), [])
+                    qf._qcircuit = oc
+                    snap = c14.snapshot(oc)
+                    try:
+                        p_ = c14.run_hooked(Grover, qf, None, n_it, n_match)
+                    except pyvc.Unsupported as ex:
+                        return [res(name, common.UNDECIDED, detail=f"Unsupported: {ex}", **base)]
+                    cases += 1
+                    if n_it is None:
+                        kk = 0
+                        while 16 * kk * kk * n_match < lo * lo * (1 << n):
+                            kk += 1
+                        if not 16 * kk * kk * n_match >= hi * hi * (1 << n):
+                            continue          # pi bounds too coarse to decide this count: skip (never happens for the listed cases)
+                    else:
+                        kk = n_it
+                    ok = p_.kind == "return"
+                    det = dict(observed=f"raises {p_.value!r}"[:200]) if not ok else None
+                    if ok:
+                        g = p_.value
+                        qc = g.circuit()
+                        ph = m
+
+                        def view(x, w):
+                            return (c14.tag(x) if isinstance(x, c14.Token) else type(x).__name__, list(w))
+                        gs = [view(x, w) for x, w, _ in qc.gates if isinstance(x, c14.Token) or not x.is_nop()]
+                        og = [(t, list(w)) for t, w, _ in snap[0]]
+                        diff = [x for i in range(n) for x in (("H", [i]), ("X", [i]))] + [("H", [ph]), ("X", [ph])] + [("MCtrl", list(range(n)) + [ph])] + \
+                               [x for i in range(n) for x in (("X", [i]), ("H", [i]))] + [("X", [ph]), ("H", [ph])]
+                        exp = [("H", [i]) for i in range(n)] + [("H", [ph])] + (og + [("MCtrl", [r, ph])] + diff) * kk
+                        ok = (gs == exp and qc.num_qubits == m + 1 and g.n_iterations == kk and list(g.output_qubits) == list(range(n)) and c14.snapshot(oc) == snap
+                              and not ({id(w) for _, w, _ in qc.gates} & {id(w) for _, w, _ in oc.gates}) and qc.gates is not oc.gates)
+                        det = dict(n_iterations=g.n_iterations, expected_iterations=kk, observed=gs[:10], expected=exp[:10], observed_len=len(gs), expected_len=len(exp),
+                                   oracle_unchanged=c14.snapshot(oc) == snap)
+                    if not ok:
+                        return [res(name, REFUTED, replayed=True,
+                                    replay=dict(call=f"Grover(pred, None, n_iterations={n_it}, n_matching={n_match}) with pred.circuit() = opaque gates on wires {[list(w) for w in ws]}, _ret on qubit {r}", **det), **base)]
+    return [res(name, PROVED, cases=cases, **base)]
+
+
+def _dispatch(j):
+    f, a = j
+    return f(a)
+
+
 def run(tier, only=None):
     from qlasskit.algorithms import Grover
     rep = Report("C15", tier, "exploration", f"./check C15 --tier {tier}")
@@ -146,7 +222,11 @@ def run(tier, only=None):
     for m in (1, 2, 3, 4, 5, 8):
         for _ in range(1 if tier == "quick" else 8):
             jobs.append((5, sorted(r.sample(range(32), m))))
-    rep.add(run_pool(job, jobs))
+    jobs = [(job, j) for j in jobs]
+    for n in (1, 2, 3, 4):
+        for extra in (1, 2):
+            jobs.append((job_struct_opaque, (n, extra, 2 if n <= 2 else 1)))
+    rep.add(run_pool(_dispatch, jobs))
     rep.under_contract(Grover.__init__, Grover.decode_output, Grover.output_qubits.fget)
     rep.rule = "one evaluation = one (solution set, syntactic form): real Grover constructor, exact amplitude simulation from |0..0>, exact rational output distribution; distinct = distinct predicate text"
     rep.extra.update(bounded=dict(family="all solution sets of size 1..N/4 on 2..4 search bits (sampled beyond 40 sets per size), seeded sets on 5 bits; forms: comparison, bit-level DNF, oraclize(g, y) for single solutions",
